@@ -24,6 +24,11 @@ def section(rng, path, kind="change", fmt=None, width=None, nonl=True):
         ops = applyc.fix_nonl(ops)
         a = [l for o, l in ops if o != "+"]
         b = [l for o, l in ops if o != "-"]
+        # a change that leaves an empty (but existing) file is indistinguishable from a deletion in a diff: not generated
+        if kind == "change" and (not a or not b):
+            continue
+        if kind in ("rename", "copy", "mode") and not b:
+            continue
         if kind in ("rename", "copy", "mode") or any(o != " " for o, _ in ops):
             break
     w = rng.choice([0, 1, 2, 3, 3]) if width is None else width
@@ -34,7 +39,8 @@ def section(rng, path, kind="change", fmt=None, width=None, nonl=True):
     mo = mn = None
     if fmt == "normal":
         hs = gen.hunks_from_ops(ops, 0)
-        text = ("diff %s %s\n" % (path + ".orig", path)).encode("latin-1") + emit.emit_normal(ops)
+        # a normal diff names no file: the name comes from an Index: line (or from the command line)
+        text = ("Index: %s\n" % path).encode("latin-1") + ("diff %s %s\n" % (path + ".orig", path)).encode("latin-1") + emit.emit_normal(ops)
     elif fmt == "context":
         oldn = "/dev/null" if kind == "add" else path + ".orig"
         text = emit.emit_context(oldn, path, hs, "2024-01-01 00:00:00.000000000 +0000", "2024-01-02 00:00:00.000000000 +0000")
@@ -132,10 +138,12 @@ def gen_scenario(rng, nsec=None, kinds=None, fmts=None, **kw):
     nsec = nsec or rng.choice([1, 1, 1, 2, 3])
     paths = rng.sample(PATHS, nsec)
     secs = []
-    same_fmt_git = rng.random() < 0.3
-    for p in paths:
-        kind = rng.choice(kinds or ["change", "change", "change", "add", "delete"])
+    kindlist = [rng.choice(kinds or ["change", "change", "change", "add", "delete"]) for _ in paths]
+    same_fmt_git = rng.random() < 0.3 or any(k in ("rename", "copy", "mode") for k in kindlist)
+    for p, kind in zip(paths, kindlist):
         fmt = "git" if same_fmt_git else rng.choice(fmts or ["unified", "unified", "context", "normal"])
+        if fmt == "normal" and " " in p:
+            fmt = "unified"     # an Index: line cannot carry a name with a blank
         if kind in ("add", "delete") and fmt in ("context", "normal"):
             fmt = "unified"     # known findings K2/K21: context/normal creation and deletion (operation inference)
         secs.append(section(rng, p, kind=kind, fmt=fmt, width=(rng.choice([1, 2, 3]) if kind in ("add", "delete") or fmt == "normal" else None)))
